@@ -202,3 +202,18 @@ CHECKS["C05"] = {
     "technique": "contract-based deductive verification: symbolic execution of the fit wiring with uninterpreted minimisers, loop invariant, z3; native replay with recording stubs",
 }
 NOT_APPLICABLE.pop("C05", None)
+
+CHECKS["C13"] = {
+    "category": "proof",
+    "text": ("Wiring only (the decidable part): with the AD operators uninterpreted, the pytorch / tensorflow / jax value-and-gradient wrappers are "
+             "executed symbolically on the current source. Proved: the returned value is objective(stitch_pars(pars), data, pdf)[0] - the value of "
+             "the non-differentiating path; the derivative is requested of THAT value with respect to the FREE-parameter tensor (torch.autograd.grad("
+             "constr_nll, pars) with requires_grad set before stitching; tape.watch(pars) before the objective is evaluated and tape.gradient("
+             "constr_nll, pars); jax.value_and_grad(_final_objective, argnums=0) jitted with static_argnums (3..7)); wrap_objective forwards its "
+             "pieces positionally; _final_objective puts fixed values and free parameters at their own positions (bounded: <= 3 parameters). "
+             "NOT decided: that the AD engines return the true derivative at every point, regime and breakpoint (external engines, floating point); "
+             "the C1 continuity of codes 4 / 4p at their breakpoints is a lemma proved in C03."),
+    "note": "torch / tensorflow / jax automatic differentiation is external and assumed correct; replay compares with finite differences (testing-grade, only as arbiter)",
+    "technique": "contract-based deductive verification: symbolic execution of the gradient wrappers with uninterpreted AD operators, forwarding obligations; finite-difference native replay",
+}
+NOT_APPLICABLE.pop("C13", None)
